@@ -14,3 +14,6 @@ func SetYield(f func(site int)) { astisub.SimYieldHook = f }
 
 // SetMapOrder installs (or with nil removes) the map-order hook.
 func SetMapOrder(f func(site, n int) []int) { astisub.SimMapOrderHook = f }
+
+// SetLock installs (or with nil removes) the critical-section hook.
+func SetLock(f func(delta int)) { astisub.SimLockHook = f }
